@@ -513,13 +513,46 @@ def run_special(case, tier, res):
     run_matrix(M, tier, res, case)
 
 
+def forminfer_matrix(space, idx):
+    """idx-th square matrix of a small value space: '4x4b' = all 0/1 matrices, '3x3t' = all matrices over {0,1,2},
+    '3x3c' = all over {0, 1, 1j} (complex)"""
+    if space == "4x4b":
+        return np.array([(idx >> k) & 1 for k in range(16)], dtype=float).reshape(4, 4)
+    digs = [(idx // 3 ** k) % 3 for k in range(9)]
+    if space == "3x3t":
+        return np.array(digs, dtype=float).reshape(3, 3)
+    return np.array([[0, 1, 1j][d] for d in digs], dtype=complex).reshape(3, 3)
+
+
+FORMINFER_SIZE = {"4x4b": 2 ** 16, "3x3t": 3 ** 9, "3x3c": 3 ** 9}
+
+
+def forminfer_one(space, idx, fname, kinds=("ndarray", "csr", "coo", "csc")):
+    """form inferred for a square matrix written without `forms`: 6 exactly when the matrix equals its transpose -
+    whatever container it comes in (equal values at non-mirror positions must not look symmetric)"""
+    from pyyeti.nastran import op4
+
+    M = forminfer_matrix(space, idx)
+    want = 6 if np.array_equal(M, M.T) else 1
+    msgs = []
+    for inkind in kinds:
+        op4.write(fname, "A", as_input(M, inkind), binary=True)
+        names, sizes, forms, types = op4.dir(fname, verbose=False)
+        if [int(f) for f in forms] != [want]:
+            msgs.append("write(%s input, forms=None) of %s: form %s recorded, the matrix is %s" % (inkind, M.tolist(), list(forms), "symmetric (6)" if want == 6 else "not symmetric (1)"))
+    return msgs
+
+
 def shards(tier, seed):
     sc = small_cases(tier)
     n = 96 if tier == "quick" else 256
     out = [dict(part="small", idx=list(range(i, len(sc), n)), tier=tier) for i in range(n)]
     for bc in boundary_cases(tier):
         out.append(dict(part="special", case=bc, tier=tier))
-    out.sort(key=lambda s: 0 if s["part"] == "special" else 1)
+    for space, nsh in (("4x4b", 24), ("3x3t", 8), ("3x3c", 8)):
+        for k in range(nsh):
+            out.append(dict(part="forminfer", space=space, k=k, step=nsh, tier=tier))
+    out.sort(key=lambda s: 0 if s["part"] in ("special", "forminfer") else 1)
     return out
 
 
@@ -545,6 +578,13 @@ def run_shard(sh):
                 M = make_matrix(c["r"], c["c"], c["pattern"], c["vclass"], c["cplx"])
                 run_matrix(M, tier, res, dict(c, tier=tier), which="strings" if c["r"] == 10 and tier == "quick" else "all")
             res.sample(dict(c, matrix=np.real(M).tolist()))
+        elif sh["part"] == "forminfer":
+            fname = os.path.join(scratch(), "fi_%d.op4" % os.getpid())
+            for idx in range(sh["k"], FORMINFER_SIZE[sh["space"]], sh["step"]):
+                for m in forminfer_one(sh["space"], idx, fname, ("ndarray", "csr") if tier == "quick" else ("ndarray", "csr", "coo", "csc")):
+                    res.viol(dict(kind="forminfer", space=sh["space"], idx=idx, tier=tier), m, kind="forminfer-" + m.split()[0][:18])
+                res.ev("forminfer/%s" % sh["space"], n=0)
+            res.sample(dict(sh))
         else:
             run_special(sh["case"], tier, res)
             res.sample(dict(sh["case"]))
@@ -558,6 +598,8 @@ def replay(case):
     res = Result()
     tier = case.get("tier", "quick")
     try:
+        if case["kind"] == "forminfer":
+            return forminfer_one(case["space"], case["idx"], os.path.join(scratch(), "r.op4"))
         if case["kind"] == "small":
             M = make_matrix(case["r"], case["c"], case["pattern"], case["vclass"], case["cplx"])
             fname = os.path.join(scratch(), "r.op4")
